@@ -45,7 +45,8 @@ def gen_part(rng, tok, p_exc=0.0, kinds=("fail", "error"), p_write=0.3):
     if part["writes"] and rng.random() < 0.15:
         part["rawbytes"] = True
     if rng.random() < 0.3:
-        part["excStyle"] = rng.choice(["cause", "context", "unhashable", "unhashable-cause", "syntax"])
+        # ("noframes" takes effect in clean-ups only: a built-in registered with addCleanup fails)
+        part["excStyle"] = rng.choice(["cause", "context", "unhashable", "unhashable-cause", "syntax", "noframes"])
     return part
 
 
@@ -120,8 +121,15 @@ def gen_test(rng, tid, tok, kind=None, p_write=0.3):
         t["cleanups"][rng.randrange(2)]["exc"] = "skip"
     if rng.random() < 0.05:
         t["count"] = 3
-    if rng.random() < 0.15:
-        t["rebind"] = True
+    if kind in ("pass", "fail") and not t["cleanups"] and rng.random() < 0.12:
+        # the same script as a doctest (DocTestCase): what it writes goes to sys.stderr
+        t["doctest"] = True
+        for p_ in (t["setUp"], t["body"], t["tearDown"]):
+            for w_ in p_["writes"]:
+                w_[0] = True
+            p_.pop("excStyle", None)
+    elif rng.random() < 0.15:
+        t["rebind"] = rng.choice([True, True, "err", "out"])
     elif rng.random() < 0.1:
         # replaces sys.stdout by a stream of its own; what it writes for the runner to see goes to sys.stderr
         t["ownstream"] = True
@@ -134,6 +142,7 @@ def gen_test(rng, tid, tok, kind=None, p_write=0.3):
     return t
 
 
+ODD_LAYER_NAMES = ["X.Y", "X_Y", "B(h)", "Q+", "X-Y"]
 LAYER_NAMES = ["A", "B", "C", "D", "E", "F", "G", "H", "AB", "a"]
 
 
@@ -157,6 +166,11 @@ def gen_layers(rng, n, with_unit=True, p_fault=0.25, allow_notimpl=True):
             a, b = bases
             if a in closure(layers, b) or b in closure(layers, a):
                 kind = "instance"
+        if kind == "instance" and rng.random() < 0.3:
+            # instance layers are named by a string: dots and regex metacharacters are legal
+            odd = [n for n in ODD_LAYER_NAMES if n not in [l["name"] for l in layers]]
+            if odd:
+                names[i] = rng.choice(odd)
         lay = {"kind": kind, "name": names[i], "module": rng.choice(["wlayers", "wlayers", "wl2"]), "bases": bases,
                "setUp": rng.random() < 0.85, "tearDown": rng.random() < 0.8,
                "testSetUp": rng.random() < 0.6, "testTearDown": rng.random() < 0.6,
@@ -164,7 +178,7 @@ def gen_layers(rng, n, with_unit=True, p_fault=0.25, allow_notimpl=True):
         if kind == "class" and bases:
             # a class layer inherits the hooks of its base classes (hasattr is true): give it its own
             lay["setUp"] = lay["tearDown"] = lay["testSetUp"] = lay["testTearDown"] = True
-        lay["excStyle"] = rng.choice([None, None, "cause", "context", "unhashable", "unhashable-cause", "syntax"])
+        lay["excStyle"] = rng.choice([None, None, "cause", "context", "unhashable", "unhashable-cause", "syntax", "attr-hook"])
         if lay["setUp"] and rng.random() < p_fault * 0.5:
             lay["setUpRaises"] = rng.choice([[0], [0], [1], [999999]])
         if lay["tearDown"] and rng.random() < p_fault:
